@@ -33,6 +33,9 @@ fn main() {
     if id == "stdio" {
         std::process::exit(vh::c16::stdio_main());
     }
+    if id == "overlay" {
+        std::process::exit(vh::overlay::main(&args[2], args.get(3).and_then(|s| s.parse().ok()).unwrap_or(50)));
+    }
     if id == "serve" {
         std::process::exit(vh::c06::serve(&args[2]));
     }
